@@ -62,6 +62,19 @@ CHECKS = {
    note='Axioms: none. XML part payloads are symbolic here (their content is C01/C02/C10); zipfile\'s byte layout is trusted.',
    tech='Coq proof over a model of the package writer (induction on the object tree) + correspondence',
    ref='5/C03'),
+ 'C04': dict(
+   text='Proof (Coq): tree-level model of odf/load.py and of the XML part of opendocument.load (parts in order settings, meta, content, '
+        'styles; section routing; font-face-decls of content.xml skipped; every element through build_caches with style registration, '
+        'renaming and redirection); composed with the renderers (C12) and the XML round trip (C01/C02): for every document whose '
+        'sections hold elements only and whose registered style names do not clash, loading the four rendered parts gives the document '
+        'with every tree normalised as a parser normalises it, the generator replaced by exactly one naming the library, and the '
+        'automatic styles that content.xml and styles.xml carry (the referenced ones: C10); attaching a clash-free subtree is the '
+        'identity at any depth (induction over trees). PARTIAL: the equality of the second-generation package is checked by the oracle, '
+        'not proved; pictures and sub-documents are C03/C16 theorems plus the oracle here. Tied by correspondence of the extracted '
+        'xml_parse + load_doc on the parts of really saved packages with the really loaded document, section by section.',
+   note='Axioms: none. Attribute values are taken as fixed points of the converters (C15).',
+   tech='Coq proof (composition of renderer, parser round trip and loader models; induction over trees) + correspondence',
+   ref='5/C04'),
  'C06': dict(
    text='Proof (Coq, finite domain decided by computation and lifted): over the four tables of odf/grammar.py and the relations read '
         'from the ODF 1.2 RELAX NG schema (both regenerated on every run, one numbering of names), the model of addElement / addText / '
